@@ -240,8 +240,8 @@ def build_jobs(ctx, nmax=6, parts=("prep", "readout")):
             desc[f"{n}-{conn}"] = f"all 2295 groups x {'all 16' if not q else '1 seeded'} sign vector(s) (+ all 16 signs for one member per class): {cnt} cases"
         else:
             orbit_of, reps = G.orbit_table(n)
-            layers = 2 if q and n == 5 else (1 if q else 6)
-            nsig = (3 if n == 5 else 2) if q else 8
+            layers = 2 if q and n == 5 else (1 if q else 3)
+            nsig = (3 if n == 5 else 2) if q else (2 ** n if n == 5 else 16)      # thorough: ALL 32 sign vectors at n=5, 16 seeded at n=6
             for orb, gid in enumerate(reps):
                 rows0 = [(x, z) for x, z, _ in G.graph_state_gens(n, G.adj_from_id(n, gid))]
                 variants = [rows0]
@@ -251,11 +251,11 @@ def build_jobs(ctx, nmax=6, parts=("prep", "readout")):
                 if q and n == 6:
                     variants = variants[1:]
                 for rows in variants:
-                    svs = [tuple(rnd.randrange(2) for _ in range(n)) for _ in range(nsig)]
+                    svs = sign_vectors(n) if nsig == 2 ** n else [tuple(rnd.randrange(2) for _ in range(n)) for _ in range(nsig)]
                     for sv in svs:
                         jobs.append((n, conn, with_signs(rows, sv), "matrix" if cnt % 4 else "strings", orb))
                         cnt += 1
-            desc[f"{n}-{conn}"] = f"every class ({len(reps)}) x {layers + (0 if q and n == 6 else 1)} members (seeded local Clifford layers, seeded generator changes) x {nsig} seeded sign vectors: {cnt} cases (BOUNDED in members/signs)"
+            desc[f"{n}-{conn}"] = f"every class ({len(reps)}) x {layers + (0 if q and n == 6 else 1)} members (seeded local Clifford layers, seeded generator changes) x {'all ' + str(nsig) if nsig == 2 ** n else str(nsig) + ' seeded'} sign vectors: {cnt} cases (BOUNDED in members/signs)"
     return [j + (parts,) for j in jobs], desc
 
 
